@@ -234,7 +234,80 @@ func trieJSONDifferential(t *trie.Trie, m ref.TrieSet, c c15Case, probes []strin
 	return ""
 }
 
+type c15Byte struct {
+	Byte int `json:"byte"`
+}
+
+func c15AllBytes(r *core.Run) {
+	core.Clause(r, "all-bytes-words", core.Opts{Rule: "for every byte value b: the words [b], [a b], [b a], [b b] and [b^1 b] go through Add / Has / ForEach / JSON rebuild (into New() and &Trie{}) / Delete next to the set model; non-trivial = all"},
+		func(emit func(c15Byte) bool) {
+			for b := 0; b < 256; b++ {
+				emit(c15Byte{b})
+			}
+		},
+		func(c c15Byte) core.Outcome {
+			b := byte(c.Byte)
+			words := []string{string([]byte{b}), string([]byte{'a', b}), string([]byte{b, 'a'}), string([]byte{b, b}), string([]byte{b ^ 1, b})}
+			var probes []string
+			for _, w := range words {
+				probes = append(probes, w, w[:1], w+"z")
+			}
+			var fail string
+			p := catch(func() {
+				t := trie.New()
+				m := ref.TrieSet{}
+				for i, w := range words {
+					if f := applyTrieOp(t, m, "+"+w); f != "" {
+						fail = f
+						return
+					}
+					if f := observeTrie(t, m, probes, fmt.Sprintf("after adding %q", words[:i+1])); f != "" {
+						fail = f
+						return
+					}
+					js, f := trieKey(t)
+					if f != "" {
+						fail = f
+						return
+					}
+					for variant := 0; variant < 2; variant++ {
+						t2 := trie.New()
+						if variant == 1 {
+							t2 = &trie.Trie{}
+						}
+						if err := json.Unmarshal([]byte(js), t2); err != nil {
+							fail = "UnmarshalJSON failed on own output: " + err.Error()
+							return
+						}
+						if f := observeTrie(t2, m, probes, fmt.Sprintf("rebuilt from JSON after adding %q", words[:i+1])); f != "" {
+							fail = f
+							return
+						}
+					}
+				}
+				for _, w := range []string{words[3], words[0], words[1]} {
+					if f := applyTrieOp(t, m, "-"+w); f != "" {
+						fail = f
+						return
+					}
+					if f := observeTrie(t, m, probes, fmt.Sprintf("after deleting %q", w)); f != "" {
+						fail = f
+						return
+					}
+				}
+			})
+			if p != "" {
+				return core.Failf("byte %#x: panic: %s", c.Byte, p)
+			}
+			if fail != "" {
+				return core.Failf("byte %#x: %s", c.Byte, fail)
+			}
+			return core.Outcome{Class: "ok", Nontrivial: true, Evals: 30}
+		})
+}
+
 func runC15(r *core.Run) {
+	c15AllBytes(r)
 	type cfg struct {
 		sigma string
 		d     int
